@@ -48,7 +48,7 @@ def declare(S: Spec):
     A = "all(a is not None and PoolOfPriority(a) for a in new_assignments)"
     PQ = ("0 in pool_queues and 1 in pool_queues and seq(pool_queues[0]) == [s.qry_jobs, s.interactive_jobs]"
           " and seq(pool_queues[1]) == [s.batch_ppln_jobs]")
-    S.fn(f"{MPP}:priority_pool_scheduler", owners=["C16"],
+    S.fn(f"{MPP}:priority_pool_scheduler", owners=["C16", "C08"],
          params={"s": Ref("Scheduler"), "results": List(Ref("ExecutionResult")), "pipelines": List(Ref("Pipeline"))},
          returns=Tuple(List(Ref("Suspend")), List(Ref("Assignment"))),
          requires=["s is not None and results is not None and pipelines is not None", "PPQueues(s)",
